@@ -39,6 +39,8 @@ pub enum Act {
     I1,
     I2,
     Ls,
+    /// sts: two words, one on the reduced core (sized separately from lds in both passes)
+    Ss,
     Db(u8),
     Dw(u8),
     Dd,
@@ -88,6 +90,7 @@ impl RefModel for Layout {
                     v.push(Act::I2);
                 }
                 v.push(Act::Ls);
+                v.push(Act::Ss);
                 v.extend([Act::Db(1), Act::Db(2), Act::Db(3), Act::Dw(1), Act::Dw(2), Act::Dd, Act::Dq]);
             }
             Seg::E => {
@@ -128,7 +131,7 @@ impl RefModel for Layout {
         match a {
             Act::I1 => place(&mut n, 1),
             Act::I2 => place(&mut n, 2),
-            Act::Ls => place(&mut n, self.lds_words),
+            Act::Ls | Act::Ss => place(&mut n, self.lds_words),
             Act::Db(k) => place(&mut n, if s.seg == Seg::C { (*k as u32 + 1) / 2 } else { *k as u32 }),
             Act::Dw(k) => place(&mut n, if s.seg == Seg::C { *k as u32 } else { 2 * *k as u32 }),
             Act::Dd => place(&mut n, if s.seg == Seg::C { 2 } else { 4 }),
@@ -221,6 +224,7 @@ impl Layout {
                 Act::I1 => item = Some((format!("ldi r16, {}", id), w2b(isa::encode(self.core, "ldi", &[Opnd::Reg(16), Opnd::Imm(id)]).unwrap()))),
                 Act::I2 => item = Some((format!("jmp {}", 0x1000 + id), w2b(isa::encode(self.core, "jmp", &[Opnd::Imm(0x1000 + id)]).unwrap()))),
                 Act::Ls => item = Some((format!("lds r16, {}", 0x60 + id), w2b(isa::encode(self.core, "lds", &[Opnd::Reg(16), Opnd::Imm(0x60 + id)]).unwrap()))),
+                Act::Ss => item = Some((format!("sts {}, r17", 0x60 + id), w2b(isa::encode(self.core, "sts", &[Opnd::Imm(0x60 + id), Opnd::Reg(17)]).unwrap()))),
                 Act::Db(k) => {
                     let (t, mut b) = match k {
                         1 => (format!(".db {}", id), vec![id as u8]),
@@ -327,7 +331,7 @@ fn model_for(devname: Option<&str>, expr_actions: bool) -> Layout {
 
 fn act_class(a: &Act) -> &'static str {
     match a {
-        Act::I1 | Act::I2 | Act::Ls => "instruction",
+        Act::I1 | Act::I2 | Act::Ls | Act::Ss => "instruction",
         Act::Db(_) => "db",
         Act::Dw(_) | Act::Dd | Act::Dq => "dw-dd-dq",
         Act::Byte(_) => "byte",
